@@ -1747,6 +1747,9 @@ class FileBuilder:
         except Exception:
             # e.g. another thread performed one of the suboperations
             self._unapply_cached_suboperations(applied_filenames)
+            operation.file_comparison_result = None
+            operation.suboperations = []
+            operation.return_value = None
             raise
         return True
 
@@ -1879,6 +1882,8 @@ class FileBuilder:
             except Exception:
                 # e.g. another thread performed one of the suboperations
                 self._unapply_cached_suboperations(applied_filenames)
+                operation.suboperations = []
+                operation.return_value = None
                 raise
         else:
             description = 'the subbuild function {:s}'.format(
